@@ -112,3 +112,36 @@ def replay_hfe3_opcodes(obl, inputs, job, work):
     return {"reproduced": r.returncode == 1, "cmd": "bash %s %s" % (script, build),
             "expected": "every case NOT REPRODUCED (output identical to the version-1 image), exit 0",
             "observed": {"exit": r.returncode, "cases": [c[:300] for c in cases]}}
+
+
+def replay_hfe_lut_offset(obl, inputs, job, work):
+    """C05: an HFE file whose track list is not in block 1 (header bytes 0x12/0x13 say where it is) must read exactly as the
+    same image with the list in block 1.  Built from the pinned wdfs-dd.hfe: the list is copied to a new 512-byte block
+    appended to the file, the header field is set to that block, the old list is zeroed."""
+    import gzip
+    build = build_native(work)
+    src = os.path.join(REPO, "dfs", "testdata", "wdfs-dd.hfe.gz")
+    data = bytearray(gzip.open(src).read())
+    tracks = data[9]
+    old = data[0x12] | (data[0x13] << 8)
+    lut = bytes(data[512 * old:512 * old + 4 * tracks])
+    while len(data) % 512:
+        data.append(0xFF)
+    newblk = len(data) // 512
+    data += lut + b"\xff" * (512 - len(lut) % 512 if len(lut) % 512 else 0)
+    data[0x12], data[0x13] = newblk & 0xFF, newblk >> 8
+    data[512 * old:512 * old + 4 * tracks] = bytes(4 * tracks)
+    base = os.path.join(work, "lut_base.hfe"); moved = os.path.join(work, "lut_moved.hfe")
+    open(base, "wb").write(gzip.open(src).read()); open(moved, "wb").write(bytes(data))
+    dfs = os.path.join(build, "dfs", "dfs")
+    obs = []
+    bad = False
+    for args in (["cat"], ["info", "#.*"], ["free"]):
+        a = subprocess.run([dfs, "--file", base] + args, capture_output=True, timeout=60)
+        b = subprocess.run([dfs, "--file", moved] + args, capture_output=True, timeout=60)
+        same = (a.returncode, a.stdout) == (b.returncode, b.stdout)
+        bad = bad or not same
+        obs.append({"args": args, "same": same, "exit": [a.returncode, b.returncode], "stderr_moved": b.stderr.decode("latin-1")[:200]})
+    os.remove(base); os.remove(moved)
+    return {"reproduced": bad, "cmd": "%s --file <wdfs-dd.hfe with the track list moved to block %d> cat|info|free" % (dfs, newblk),
+            "expected": "same exit status and stdout as for the unmodified image", "observed": obs}
